@@ -34,6 +34,7 @@ def r11_1(prog: Program, rep: Report):
     fix = {"qualifier": True, "alias": True, "newtype": True}
     exits_ok = True
     string_exits_bad: list[str] = []
+    bare_qualifier_unguarded: list[int] = []
     for p in ps:
         gs = p.guards()
         in_loop = any(e[0] == "while" and e[2] == 1 for e in p.events)
@@ -47,6 +48,12 @@ def r11_1(prog: Program, rep: Report):
         if any(pol and T.is_call_to(g, f"{C.INSP}.should_unwrap") and g[2] == (t0,) for g, pol in gs):
             kind = "qualifier"
             if cur_t == ("sub", ("attr", t0, "__args__"), ("const", 0)):
+                found[kind] = True
+                # bare `Final` / `ClassVar` (legal: `x: Final = 3`) have no __args__
+                guarded = any(T.contains(g, lambda x: x == ("attr", t0, "__args__") or (T.is_call_to(x, "builtins.getattr", "builtins.hasattr") and x[2][:2] == (t0, ("const", "__args__"))) or (T.is_call_to(x, f"{C.INSP}.args", "typing.get_args") and x[2][:1] == (t0,))) for g, _ in gs)
+                if not guarded:
+                    bare_qualifier_unguarded.append(1)
+            elif cur_t is not None and T.contains(cur_t, lambda x: T.is_call_to(x, "builtins.getattr") and x[2][:2] == (t0, ("const", "__args__")) or T.is_call_to(x, f"{C.INSP}.args", "typing.get_args")):
                 found[kind] = True
         elif any(pol and T.is_call_to(g, f"{C.INSP}.istypealiastype") and g[2] == (t0,) for g, pol in gs):
             val = ("attr", t0, "__value__")
@@ -101,6 +108,7 @@ def r11_1(prog: Program, rep: Report):
         rep.check(ok, "R11.1", q, f.loc, f"unwrap peels {labels[k]}", f"unwrap has no branch that peels {labels[k]}: such annotations are dispatched as opaque objects", detail=k)
     for k, ok in fix.items():
         rep.check(ok, "R11.1", q, f.loc, f"after peeling {k} the loop is re-entered (chains peel to a fixpoint)", f"after peeling {k} unwrap returns at once: a chain such as NewType of NewType / Final[alias] is only peeled one level", detail=f"{k}-fixpoint")
+    rep.check(not bare_qualifier_unguarded, "R11.1", q, f.loc, "the qualifier peel does not assume type arguments (bare Final / ClassVar have none)", "unwrap() indexes t.__args__[0] whenever should_unwrap(t) holds, and it holds for the bare forms: a class with `x: Final = 3` or `y: ClassVar = 0` raises AttributeError('__args__') out of the graph walk", detail="bare-qualifier")
     rep.check(not string_exits_bad, "R11.1", q, f.loc, "a string-valued alias always unwraps to the forward reference in the alias's module", f"a string-valued alias can unwrap to {string_exits_bad[:1]} instead of the forward reference naming its value: the context key under which the graph registered it is no longer the one a lookup asks for", detail="alias-string-exit")
     rep.check(exits_ok, "R11.1", q, f.loc, "the non-peeling exit returns the current annotation", "an exit returns something other than the current annotation", detail="exit")
     # should_unwrap consults every qualifier predicate — through a table (`any(x(obj) for x in TABLE)`) or spelled out
@@ -128,8 +136,10 @@ def r11_1(prog: Program, rep: Report):
         positive_calls(r)
     need = {f"{C.INSP}.isclassvartype", f"{C.INSP}.isfinal"}
     rep.check(need <= names, "R11.1", su.qualname, su.loc, "should_unwrap consults the ClassVar and the Final predicate", f"should_unwrap does not consult {sorted(n.rsplit('.', 1)[-1] for n in need - names)}: that qualifier is never peeled", detail="qualifiers")
-    lit_excluded = all(any(T.is_call_to(g, f"{C.INSP}.isliteral") and not pol for g, pol in pth.guards()) or T.contains(r, lambda x: x[0] == "not" and T.is_call_to(x[1], f"{C.INSP}.isliteral")) or r == ("const", False) for pth, r in P.returns(P.paths_of(prog, su)))
-    rep.check(lit_excluded, "R11.1", su.qualname, su.loc, "Literal forms are never unwrapped (their arguments are values)", "should_unwrap can be true for a Literal: its first value would be taken for an annotation", detail="should_unwrap")
+    # isliteral() looks through ClassVar (origin() peels it), so a `not isliteral(obj)` conjunct vetoes the peeling of
+    # ClassVar[Literal[...]]: the Literal routine then receives the qualified form and rejects every value
+    veto = any(T.contains(r, lambda x: x[0] == "not" and T.is_call_to(x[1], f"{C.INSP}.isliteral") and x[1][2] == (obj,)) for _, r in P.returns(P.paths_of(prog, su))) or any(T.is_call_to(g, f"{C.INSP}.isliteral") and g[2] == (obj,) and r == ("const", False) and pol for pth, r in P.returns(P.paths_of(prog, su)) for g, pol in pth.guards())
+    rep.check(not veto, "R11.1", su.qualname, su.loc, "no Literal veto on qualifier peeling (a bare Literal is neither ClassVar nor Final anyway)", "should_unwrap is vetoed by `not isliteral(obj)`, and isliteral() sees through ClassVar: ClassVar[Literal['r', 'w']] is never unwrapped, so every value is rejected by the Literal routine", detail="should_unwrap")
     # the alias predicate recognises every alias class of the environment (typing's and a distinct typing_extensions backport)
     ia = prog.function(f"{C.INSP}.istypealiastype")
     tested: set[str] = set()
@@ -180,6 +190,14 @@ def r11_7(prog: Program, rep: Report, rule="R11.7"):
     ref = ("param", fr.params[0])
     ok_name = ok_module = ok_flags = False
     why_name = why_mod = ""
+    # the module qualifier is removed from the reference name as a *prefix* only
+    anywhere = []
+    for p in P.paths_of(prog, fr):
+        for tm in p.all_terms():
+            for x in T.walk(tm):
+                if x[0] == "call" and x[1][0] == "attr" and x[1][2] == "replace" and len(x[2]) == 2 and x[2][1] == ("const", "") and T.contains(x[2][0], lambda y: y[0] == "fmt" or y == ("const", ".")):
+                    anywhere.append(T.show(x)[:80])
+    rep.check(not anywhere, rule, fr.qualname, fr.loc, "the module qualifier is stripped from the reference name only where it is a prefix", f"forwardref() deletes '<module>.' wherever it occurs in the name (str.replace): a class Item.Part in a module named 'm' is referenced as 'ItePart', 'pathlib.Path' in a module named 'lib' as 'pathPath'", detail="prefix-strip")
     for p, r in P.returns(P.paths_of(prog, fr)):
         if not T.is_call_to(r, "typing.ForwardRef"):
             continue
@@ -320,6 +338,31 @@ def r11_6(prog: Program, rep: Report):
                         seen_child = True
                     if x[2] == ("call", ("ref", f"{C.INSP}.unwrap"), (child,), ()):
                         seen_unwrapped = True
+    # ... and the recording side must match: the set the revisit test reads holds the unwrapped forms too
+    rec_types = rec_unwrapped = False
+    root_unwrapped = False
+
+    def field_of(x):
+        """'type' / 'unwrapped' when x is that field of a node (node.f, or the constructor argument itself)."""
+        if x[0] == "attr" and x[2] in ("type", "unwrapped"):
+            return x[2]
+        if T.is_call_to(x, f"{C.INSP}.unwrap"):
+            return "unwrapped"
+        return None
+
+    for p in ps:
+        for e in p.events:
+            if e[0] == "assign" and e[2][0] == "set" and e[2][1]:
+                if any(field_of(x) == "unwrapped" for x in e[2][1]):
+                    root_unwrapped = True
+            if e[0] == "eval" and e[1][0] == "call" and e[1][1][0] == "attr" and e[1][1][2] in ("add", "update") and e[1][1][1][0] == "set":
+                for a in e[1][2]:
+                    for y in (a[1] if a[0] in ("tuple", "list", "set") else (a,)):
+                        if field_of(y) == "type":
+                            rec_types = True
+                        if field_of(y) == "unwrapped":
+                            rec_unwrapped = True
+    rep.check(rec_types and rec_unwrapped and root_unwrapped, "R11.6", f.qualname, f.loc, "`visited` records both the annotation and its unwrapped form (for the root and for every pushed node)", "`visited` records only the annotation as spelled: a self-recursive class entered through a NewType / alias / Final label is not recognised when it is met again, so it is expanded a second time and its own member is then cut as a false cycle (unmarshal(NodeAlias, …) raises while unmarshal(Node, …) works)", detail="visited-records-unwrapped")
     if not cut_found:
         rep.undecided("R11.6", f.qualname, f.loc, "cut branch not found", detail="revisit-through-wrappers")
     else:
